@@ -1,7 +1,7 @@
 (** C12 — SVG, PDF and PostScript output encode the drawing the rasteriser renders.
     Property theorems only; each is closed by [exact] of a lemma proved elsewhere. *)
 From Coq Require Import QArith Qabs ZArith List Bool.
-From CV Require Import Geom.Matrix Render.Sem Render.GState Render.GStateProofs Render.Backends Render.UnitsProofs Render.PsProofs.
+From CV Require Import Geom.Matrix Render.Sem Render.GState Render.GStateProofs Render.Backends Render.UnitsProofs Render.PsProofs Render.GradProofs.
 Import ListNotations.
 Open Scope Q_scope.
 
@@ -74,3 +74,21 @@ Print Assumptions C12_unit_roundtrip.
 Theorem C12_printed_scale_error : Qabs ((28346457 # 10000000) * mm_per_pt - 1) <= 12 # 1000000000.
 Proof. exact printed_scale_error. Qed.
 Print Assumptions C12_printed_scale_error.
+
+(** gradient_fill_opaque — FULL for the PDF writer model of a gradient fill (after fix 54818f3): from every normalised writer state,
+    whatever paints and alpha were in force, the operators written for a gradient fill make the interpreter paint the path once,
+    with the gradient, at alpha 1, and leave the writer's cache describing exactly that state. *)
+Theorem C12_gradient_fill_opaque : forall id data eo w, Norm w ->
+  let w' := mkPdfw (PGrad id) (wstroke w) 1 (wlw w) (wcap w) (wjoin w) (wml w) (wdash w) in
+  run (fst (grad_fill_part true id data eo w)) (abs w []) = ([mkPop (KFill eo) data (paint_col (PGrad id)) 1], abs w' [])
+  /\ snd (grad_fill_part true id data eo w) = w'.
+Proof. exact grad_fill_opaque. Qed.
+Print Assumptions C12_gradient_fill_opaque.
+
+(** gradient_fill_opaque — REFUTED for the writer before the fix: after a stroke colour with alpha 128/255 the gradient fill is
+    painted at that alpha (witness replayed on the Go code: the thorough tier's first gradient run). *)
+Theorem C12_gradient_fill_opaque_refuted_v0 :
+  let w := mkPdfw PNone (PColor (0, 0, 0, 128)%Z) (Qred (128 # 255)) 1 0%Z 0%Z 10 [0] in
+  exists pop, fst (run (fst (grad_fill_part false 1%Z [] false w)) (abs w [])) = [pop] /\ ~ palpha pop == 1.
+Proof. exact grad_fill_inherits_alpha_v0. Qed.
+Print Assumptions C12_gradient_fill_opaque_refuted_v0.
